@@ -82,14 +82,20 @@ theorem getattr_chain {cs : List Cls} {tbl : Table} (M : Mros) (hM : ∀ j, j < 
   rw [h1, List.findSome?_cons, hinv k hk]
   rfl
 
+theorem own_chain {cs : List Cls} {tbl : Table} (hinv : CInv cs tbl) (k : Nat) (hk : k < tbl.length) :
+    ownTuple tbl k = Tup (Oown cs) (chainMro k) := by
+  unfold ownTuple
+  rw [hinv k hk]
+  rfl
+
 theorem chainOk_of_inv {cs : List Cls} {tbl : Table} (H : ChainHier cs) (M : Mros)
     (hM : ∀ j, j < tbl.length → M j = chainMro j) (hinv : CInv cs tbl) (k : Nat) (hk : k < tbl.length) :
     ChainOk (Oown cs) M tbl (chainMro k) := by
   induction k with
   | zero =>
-    exact ⟨getattr_chain M hM hinv 0 hk, (Oown_facts H 0).1, (Oown_facts H 0).2, trivial⟩
+    exact ⟨⟨getattr_chain M hM hinv 0 hk, own_chain hinv 0 hk⟩, (Oown_facts H 0).1, (Oown_facts H 0).2, trivial⟩
   | succ j ih =>
-    exact ⟨getattr_chain M hM hinv (j + 1) hk, (Oown_facts H (j + 1)).1, (Oown_facts H (j + 1)).2,
+    exact ⟨⟨getattr_chain M hM hinv (j + 1) hk, own_chain hinv (j + 1) hk⟩, (Oown_facts H (j + 1)).1, (Oown_facts H (j + 1)).2,
       ih (by omega)⟩
 
 /-- both collectors on the tail of the k-th chain class -/
